@@ -209,6 +209,15 @@ def strtoulDigits : Bytes → Nat → Nat → Nat × Nat
   | c :: r, acc, n => if isdigit c then strtoulDigits r (acc * 10 + (c.toNat - 48)) (n + 1) else (acc, n)
   | [], acc, n => (acc, n)
 
+/-- The value `strtoul` returns for `-v` (LP64, `ULONG_MAX = 2^64 - 1`), filtered by the caller's `> INT_MAX` test: digits that
+overflow `unsigned long` give `ULONG_MAX` (ERANGE) whatever the sign; otherwise the result is the unsigned negation `2^64 - v`,
+which is a small number again for `v` just below `2^64` (`-18446744073709551615` is 1). -/
+def strtoulNeg (v : Nat) : Option Nat :=
+  if v == 0 then some 0
+  else if v > 18446744073709551615 then none
+  else if 18446744073709551616 - v > 2147483647 then none
+  else some (18446744073709551616 - v)
+
 def strtoul (s : Bytes) : Option Nat × Nat :=
   let ws := (s.takeWhile isspace).length
   let s1 := s.drop ws
@@ -220,7 +229,7 @@ def strtoul (s : Bytes) : Option Nat × Nat :=
   if n == 0 then (some 0, 0)                       -- no conversion: end = nptr
   else
     let consumed := ws + sgn + n
-    if neg then (if v == 0 then some 0 else none, consumed)   -- -v wraps above INT_MAX
+    if neg then (strtoulNeg v, consumed)                      -- -v wraps: above INT_MAX unless v is within INT_MAX of 2^64
     else if v > 2147483647 then (none, consumed) else (some v, consumed)
 
 /-- `isbackref(str, &br)`: `.inl n` consumed with a back-reference, `.inr false` not a
